@@ -3,7 +3,7 @@
 From Coq Require Import Ascii String ZArith List Bool.
 Import ListNotations.
 From Coq Require Import PrimFloat.
-Require Import PyBase Solver SolverF FText FTextFacts FWrapFacts FSem FSemFacts FBenignFacts FSolve FSolveFacts FSolveSim FSolveRun FSolveEdge FEvalEdge FPassFacts FSolveAll FSolveAllG FPassSolve FortranF FortranExamples.
+Require Import PyBase Solver SolverF FText FTextFacts FWrapFacts FSem FSemFacts FParse FParseFacts FBenignFacts FSolve FSolveFacts FSolveSim FSolveRun FSolveEdge FEvalEdge FPassFacts FSolveAll FSolveAllG FPassSolve FortranF FortranExamples.
 Open Scope Z_scope.
 
 (* ================================================================== text of build_fortran_definition *)
@@ -68,6 +68,15 @@ Theorem C07_continuation_splits_token_refuted :
   lit "y = abs(ab" ++ lit "s(x))" = lit "y = abs(abs(x))".
 Proof. exact continuation_splits_token. Qed.
 Print Assumptions C07_continuation_splits_token_refuted.
+
+(* TEXT -> TREE inside the model (FParse.v): K checks per case that every generated statement, continuation lines joined,
+   parses by the Fortran expression grammar to `s_regroup` of the tree the script was rendered from; this theorem says that
+   tree, once its decimal literals are given their values, is exactly the tree FSem.f_pass evaluates (f_regroup of the
+   Python-side tree) *)
+Theorem C07_parsed_tree_is_evaluated_tree num (dec : Z -> nat -> num * num) (s : sexpr) :
+  to_expr num dec (s_regroup s) = f_regroup num (to_expr num dec s).
+Proof. exact (regroup_to_expr num dec s). Qed.
+Print Assumptions C07_parsed_tree_is_evaluated_tree.
 
 (* ================================================================== error codes *)
 Theorem C07_wrapper_codes_are_template_codes :
